@@ -593,9 +593,9 @@ CMR_ERROR tuPartition(
   {
     CMR_CHRMAT* transpose = NULL;
     CMR_CALL( CMRchrmatTranspose(cmr, matrix, &transpose) );
-    CMR_CALL( tuPartition(cmr, transpose, true, pisTotallyUnimodular, stats, timeLimit) );
+    error = tuPartition(cmr, transpose, true, pisTotallyUnimodular, stats, timeLimit);
     CMR_CALL( CMRchrmatFree(cmr, &transpose) );
-    return CMR_OKAY;
+    return error;
   }
 
   int8_t* selection = NULL;
